@@ -9,6 +9,7 @@ import (
 	"fmt"
 	"os"
 	"path/filepath"
+	"sort"
 	"strconv"
 	"strings"
 	"time"
@@ -90,6 +91,33 @@ func buildBlocks(params *chaincfg.Params, parents []int, bad map[int]bool) []*bt
 	return blocks
 }
 
+// newRegtestChain opens a fresh chain on ffldb in a temp dir.
+func newRegtestChain(params *chaincfg.Params) (*blockchain.BlockChain, func()) {
+	base := ""
+	if st, e := os.Stat("/dev/shm"); e == nil && st.IsDir() {
+		base = "/dev/shm" // tmpfs: ffldb's fsync per commit costs nothing there
+	}
+	dir, err := os.MkdirTemp(base, "c17hf")
+	if err != nil {
+		panic(err)
+	}
+	db, err := database.Create("ffldb", filepath.Join(dir, "db"), params.Net)
+	if err != nil {
+		os.RemoveAll(dir)
+		panic(err)
+	}
+	chain, err := blockchain.New(&blockchain.Config{
+		DB: db, ChainParams: params, TimeSource: blockchain.NewMedianTime(),
+		UtxoCacheMaxSize: 1 << 20,
+	})
+	if err != nil {
+		db.Close()
+		os.RemoveAll(dir)
+		panic(err)
+	}
+	return chain, func() { db.Close(); os.RemoveAll(dir) }
+}
+
 func execHeadersFirst(f []string) string {
 	// f = [segs, badlist, deliveries…]
 	if len(f) < 2 {
@@ -112,27 +140,8 @@ func execHeadersFirst(f []string) string {
 	for i, b := range blocks {
 		ids[*b.Hash()] = i
 	}
-	base := ""
-	if st, e := os.Stat("/dev/shm"); e == nil && st.IsDir() {
-		base = "/dev/shm" // tmpfs: ffldb's fsync per commit costs nothing there
-	}
-	dir, err := os.MkdirTemp(base, "c17hf")
-	if err != nil {
-		panic(err)
-	}
-	defer os.RemoveAll(dir)
-	db, err := database.Create("ffldb", filepath.Join(dir, "db"), params.Net)
-	if err != nil {
-		panic(err)
-	}
-	defer db.Close()
-	chain, err := blockchain.New(&blockchain.Config{
-		DB: db, ChainParams: &params, TimeSource: blockchain.NewMedianTime(),
-		UtxoCacheMaxSize: 1 << 20,
-	})
-	if err != nil {
-		panic(err)
-	}
+	chain, cleanup := newRegtestChain(&params)
+	defer cleanup()
 	idOf := func(h chainhash.Hash) string {
 		if id, ok := ids[h]; ok {
 			return strconv.Itoa(id)
@@ -184,11 +193,49 @@ func execHeadersFirst(f []string) string {
 		if chain.IsValidHeader(blocks[id].Hash()) {
 			valid = "1"
 		}
-		out = append(out, fmt.Sprintf("%s/%s@%d/%s@%d/%s", res, idOf(bh), bhh, idOf(snap.Hash), snap.Height, valid))
+		tips := chain.ChainTips()
+		sort.Slice(tips, func(i, j int) bool { return ids[tips[i].BlockHash] < ids[tips[j].BlockHash] })
+		ts := make([]string, len(tips))
+		for i, t := range tips {
+			ts[i] = fmt.Sprintf("%s.%d.%d", idOf(t.BlockHash), t.Status, t.BranchLen)
+		}
+		out = append(out, fmt.Sprintf("%s/%s@%d/%s@%d/%s/f%d/%s", res, idOf(bh), bhh, idOf(snap.Hash), snap.Height, valid,
+			chain.BestChainHeaderForkHeight(), strings.Join(ts, ",")))
 	}
-	if len(out) == 0 {
-		return "-"
+	// final observations: best-header chain by height, its locator, and the tip reached by the
+	// block deliveries alone on a second chain
+	maxH := int32(0)
+	hts := make([]int32, len(blocks))
+	for i, p := range parents {
+		hts[i+1] = hts[p] + 1
+		if hts[i+1] > maxH {
+			maxH = hts[i+1]
+		}
 	}
+	hdrs := make([]string, 0, maxH+2)
+	for h := int32(0); h <= maxH+1; h++ {
+		hh, err := chain.HeaderHashByHeight(h)
+		if err != nil {
+			hdrs = append(hdrs, "-")
+		} else {
+			hdrs = append(hdrs, idOf(*hh))
+		}
+	}
+	loc, _ := chain.LatestBlockLocatorByHeader()
+	hloc := make([]string, len(loc))
+	for i, h := range loc {
+		hloc[i] = idOf(*h)
+	}
+	chain2, cleanup2 := newRegtestChain(&params)
+	defer cleanup2()
+	for _, d := range f[2:] {
+		if d[0] == 'b' {
+			chain2.ProcessBlock(btcutil.NewBlock(blocks[atoi(d[1:])].MsgBlock()), blockchain.BFNone)
+		}
+	}
+	snap2 := chain2.BestSnapshot()
+	out = append(out, "hdrs="+strings.Join(hdrs, "."), "hloc="+strings.Join(hloc, "."),
+		fmt.Sprintf("blocksonly=%s@%d", idOf(snap2.Hash), snap2.Height))
 	return strings.Join(out, "|")
 }
 
@@ -278,7 +325,7 @@ func genHeadersFirst(g *core.Gen) {
 		block := func(id int) {
 			// an invalid version of this block may be delivered when it would extend the tip
 			// (in every other position the light block model does not cover the outcome)
-			if id != 0 && !data[id] && data[parent(id)] && parent(id) == tip && len(orphans) == 0 && r.Chance(1, 6) {
+			if id != 0 && !data[id] && data[parent(id)] && parent(id) == tip && len(orphans) == 0 && r.Chance(1, 3) {
 				bad = append(bad, id)
 				failed[id] = true
 				data[id] = true
